@@ -260,6 +260,32 @@ def t_transitions(led, rid, ctx, res):
     led.floor(rid, "life-cycle transitions observed", n, 10)
 
 
+POSTING = ("ConstraintPoster::", "Solver::add_", "Solver::new_")
+
+
+def t_inert(led, rid, ctx, res):
+    """a posting / variable-creating API function entered while a root conflict or infeasibility is
+    recorded leaves the life-cycle state as it is (it reports the error and does no work)"""
+    it, apis, B, trans, guards = res
+    seen = {}
+    n = 0
+    for label, b, st2, rt in trans:
+        if b[0] not in ("Conflict", "Infeasible") or b[1] != 0 or not label.startswith(POSTING):
+            continue
+        key = "%s@%s" % (label, short(b))
+        n += 1
+        if (st2[0], st2[1]) != (b[0], b[1]):
+            seen[key] = short(st2)
+        else:
+            seen.setdefault(key, None)
+    for key, moved in sorted(seen.items()):
+        led.check(moved is None, rid, key, None, "state unchanged",
+                  "`%s` does work although the solver already records an inconsistency: it leaves the solver "
+                  "in %s (propagation and conflict bookkeeping run on a refuted model; the conflict that was "
+                  "recorded has no propagator to blame)" % (key.replace("@", "` entered in `"), moved))
+    led.floor(rid, "posting transitions from inconsistent states", n, 10)
+
+
 def run(ctx, led):
     lib = ctx.lib
     try:
@@ -282,3 +308,4 @@ def run(ctx, led):
     from . import shared
     run_rule(led, "T9", "no stale model: every solve overwrites the stored assumptions (shared with "
              "C05-A3)", shared.assumptions_overwritten, ctx)
+    run_rule(led, "T10", "posting functions are inert while an inconsistency is recorded", t_inert, ctx, res)
